@@ -333,12 +333,12 @@ func main() {
 				go func() { done <- cmd.Wait() }()
 				select {
 				case <-done:
-				case <-time.After(75 * time.Second):
+				case <-time.After(150 * time.Second):
 					cmd.Process.Signal(syscall.SIGQUIT)
 					<-done
 					eb, _ := os.ReadFile(filepath.Join(dir, "stderr-"+mode))
 					os.WriteFile(filepath.Join(vlib.VerifDir, ".build", "C04", fmt.Sprintf("batch-timeout-%d-%s.txt", bi, mode)), eb, 0o644)
-					r.Inconclusive(fmt.Sprintf("batch %d (%s) did not finish within 75 seconds (goroutine dump kept under .build/C04/)", bi, mode))
+					r.Inconclusive(fmt.Sprintf("batch %d (%s) did not finish within 150 seconds (goroutine dump kept under .build/C04/)", bi, mode))
 					timeouts++
 				}
 				errf.Close()
